@@ -157,10 +157,10 @@ theorem step_assign (s : PState) (n e) :
 theorem step_exprStmt (s : PState) (e) :
     stepLine s (.exprStmt e) = .ok (upd s (s.cur ++ [.expr none e]) s.defs s.idx s.nextFid) := by
   simp [stepLine, emit_eq_upd]
-theorem step_label (s : PState) (l) :
+theorem p_step_label (s : PState) (l) :
     stepLine s (.label l) = .ok (upd s (s.cur ++ [.label l]) s.defs s.idx s.nextFid) := by
   simp [stepLine, emit_eq_upd]
-theorem step_jump (s : PState) (l c) :
+theorem p_step_jump (s : PState) (l c) :
     stepLine s (.jump l c) = .ok (upd s (s.cur ++ [.jump l c]) s.defs s.idx s.nextFid) := by
   simp [stepLine, emit_eq_upd]
 theorem step_ret (s : PState) (e) :
